@@ -1616,13 +1616,19 @@ func (e *ForExpr) Value(ctx *hcl.EvalContext) (cty.Value, hcl.Diagnostics) {
 			} else {
 				k := key.AsString()
 				if _, exists := vals[k]; exists {
+					detail := fmt.Sprintf(
+						"Two different items produced the key %q in this 'for' expression. If duplicates are expected, use the ellipsis (...) after the value expression to enable grouping by key.",
+						k,
+					)
+					if len(keyMarks) > 0 {
+						// A key derived from a marked value (which might be
+						// sensitive, for example) must not be disclosed.
+						detail = "Two different items produced the same key in this 'for' expression. If duplicates are expected, use the ellipsis (...) after the value expression to enable grouping by key."
+					}
 					diags = append(diags, &hcl.Diagnostic{
-						Severity: hcl.DiagError,
-						Summary:  "Duplicate object key",
-						Detail: fmt.Sprintf(
-							"Two different items produced the key %q in this 'for' expression. If duplicates are expected, use the ellipsis (...) after the value expression to enable grouping by key.",
-							k,
-						),
+						Severity:    hcl.DiagError,
+						Summary:     "Duplicate object key",
+						Detail:      detail,
 						Subject:     e.KeyExpr.Range().Ptr(),
 						Context:     &e.SrcRange,
 						Expression:  e.KeyExpr,
